@@ -339,8 +339,10 @@ func runC06(c *mon.Ctx) {
 			// boundary values
 			if b%8 == 0 {
 				r := ref.R
-				for name, v := range map[string]*big.Int{"0": big.NewInt(0), "1": big.NewInt(1), "2": big.NewInt(2), "p-1": new(big.Int).Sub(ref.P, bigOne), "p": ref.P, "p+1": new(big.Int).Add(ref.P, bigOne),
-					"r-1": new(big.Int).Sub(r, bigOne), "r": r, "r+1": new(big.Int).Add(r, bigOne), "2^255": new(big.Int).Lsh(bigOne, 255), "2^256-1": new(big.Int).Sub(two256, bigOne), "2p": new(big.Int).Lsh(ref.P, 1)} {
+				bvals := map[string]*big.Int{"0": big.NewInt(0), "1": big.NewInt(1), "2": big.NewInt(2), "p-1": new(big.Int).Sub(ref.P, bigOne), "p": ref.P, "p+1": new(big.Int).Add(ref.P, bigOne),
+					"r-1": new(big.Int).Sub(r, bigOne), "r": r, "r+1": new(big.Int).Add(r, bigOne), "2^255": new(big.Int).Lsh(bigOne, 255), "2^256-1": new(big.Int).Sub(two256, bigOne), "2p": new(big.Int).Lsh(ref.P, 1)}
+				for _, name := range sortedKeys(bvals) {
+					v := bvals[name]
 					c06compressed(c, be32(v), "boundary:"+name, rng)
 					c06uncompressed(c, append(be32(v), be32(bigOne)...), "u:boundary:"+name+",1", rng)
 					c06uncompressed(c, append(be32(v), be32(new(big.Int).Sub(ref.P, bigOne))...), "u:boundary:"+name+",p-1", rng)
